@@ -57,6 +57,9 @@ CHECKS = {
  "C20": dict(level="exploration", engine="L", design="6/C20",
    technique="model-based property testing over histories (proptest): sequences of expansions over a pool of inputs x configurations, replayed sequentially and concurrently on fresh threads; model = first output per (input, config)",
    text="A history is a pool of generated inputs, a sequence of (input, configuration) expansions with repetition, and a thread count; every later or concurrent expansion must be byte-identical to the first. Hash-order or thread-local state would show because each history constructs fresh hash states and threads."),
+ "C19": dict(level="exploration", engine="R", design="6/C19",
+   technique="property-based testing: counting global allocator around the macro expression of generated join! / try_join! programs (allocation claim); differential compile-and-run of typed chains over !Send / move-only values and caller-stack borrows (bounds claim)",
+   text="Stage 1: generated sequential programs whose user code does not allocate (preallocated event log) are evaluated under enumerated failure plans; the evaluating thread's allocation counter must not move across the macro expression. Stage 2: typed chains under the four non-spawning macros with values that are neither Send nor Clone, move-only values, shared and mutable borrows of the caller's locals, up to 7 branches; the macro side must compile whenever the documented chain does and agree with it."),
 }
 NOT_YET = "check not built yet in this session; to be decided by generated-input search as described in DESIGN.md"
 def main():
